@@ -141,4 +141,18 @@ def rle : List Int → List (Int × Nat)
 /-- `ød` (run-length decoding, on characters): `"".join(elem[0] * elem[1] for elem in lhs)` -/
 def rld (ps : List (Int × Nat)) : List Int := ps.flatMap (fun p => List.replicate p.2 p.1)
 
+/-- the order Python's stable `sorted(enumerate(l), key=item)` sorts positions by: the item, then the position -/
+def gradeLe (l : List Int) (i j : Nat) : Bool :=
+  decide (l.getD i 0 < l.getD j 0) || (decide (l.getD i 0 = l.getD j 0) && decide (i ≤ j))
+
+/-- `⇧` (grade up): `[i for i, x in sorted(enumerate(l), key=x)]` -/
+def gradeUp (l : List Int) : List Nat := (List.range l.length).mergeSort (gradeLe l)
+
+/-- `sorted(..., reverse=True)` keeps equal items in their original order -/
+def gradeGe (l : List Int) (i j : Nat) : Bool :=
+  decide (l.getD j 0 < l.getD i 0) || (decide (l.getD i 0 = l.getD j 0) && decide (i ≤ j))
+
+/-- `⇩` (grade down) -/
+def gradeDown (l : List Int) : List Nat := (List.range l.length).mergeSort (gradeGe l)
+
 end Ls
